@@ -4,6 +4,8 @@ import (
 	"fmt"
 	"go/token"
 	"go/types"
+	"os"
+	"strings"
 
 	"golang.org/x/tools/go/ssa"
 )
@@ -24,12 +26,22 @@ import (
 
 type expectCtx struct {
 	infeasible EdgeSet
-	w   *World
-	pf  *patchFamily
-	fn  *ssa.Function
-	d   *Deriv
-	ea  *errAnalysis
-	lps []*Loop
+	w          *World
+	pf         *patchFamily
+	fn         *ssa.Function
+	d          *Deriv
+	ea         *errAnalysis
+	lps        []*Loop
+	// node: the value standing for the node being patched (receiver by
+	// default; the matching parameter inside a checking helper)
+	node ssa.Value
+}
+
+func (x *expectCtx) nodeVal() ssa.Value {
+	if x.node != nil {
+		return x.node
+	}
+	return x.fn.Params[0]
 }
 
 func isNilErrReturn(ret *ssa.Return) bool {
@@ -158,7 +170,7 @@ type verif struct {
 // patched with something derived from role parameter rp.
 func (x *expectCtx) verifications(rp *ssa.Parameter) []verif {
 	var out []verif
-	node := x.fn.Params[0]
+	node := x.nodeVal()
 	for _, b := range x.fn.Blocks {
 		for _, in := range b.Instrs {
 			c, ok := in.(*ssa.Call)
@@ -310,7 +322,7 @@ func firstPos(b *ssa.BasicBlock) token.Pos {
 // (== -1 or == len(node)).
 func (x *expectCtx) boundaryAccepts(rp *ssa.Parameter) EdgeSet {
 	out := EdgeSet{}
-	node := x.fn.Params[0]
+	node := x.nodeVal()
 	for _, b := range x.fn.Blocks {
 		cond, tE, _, ok := branchEdges(b)
 		if !ok {
@@ -321,7 +333,7 @@ func (x *expectCtx) boundaryAccepts(rp *ssa.Parameter) EdgeSet {
 			continue
 		}
 		sf := staticCallee(c)
-		if sf == nil || sf.Name() != "isVoid" || !x.d.HasRoot(c.Call.Args[0], rp) {
+		if sf == nil || !x.w.helperIs(sf, "isVoid") || !x.d.HasRoot(c.Call.Args[0], rp) {
 			continue
 		}
 		// dominated by a boundary comparison's true edge
@@ -347,6 +359,150 @@ func (x *expectCtx) boundaryAccepts(rp *ssa.Parameter) EdgeSet {
 		}
 	}
 	return out
+}
+
+// helperAccepts: the no-error edges behind calls of checking helpers. A call
+// of a function of the package that receives something derived from the node
+// and something derived from role parameter rp and returns an error is a
+// check when the helper itself obeys the rule: each of its returns that may
+// carry a nil error lies behind a successful comparison of the two (single
+// Equals, or the loop over the role's values with every way round verified;
+// for context roles the boundary marker counts at the boundary).
+func (x *expectCtx) helperAccepts(rp *ssa.Parameter, context bool, depth int) EdgeSet {
+	out := EdgeSet{}
+	node := x.nodeVal()
+	for _, b := range x.fn.Blocks {
+		for _, in := range b.Instrs {
+			c, ok := in.(*ssa.Call)
+			if !ok {
+				continue
+			}
+			sf := staticCallee(c)
+			if sf == nil || sf.Blocks == nil || fnPkg(sf) != fnPkg(x.fn) || !lastIsError(sf.Signature) || len(c.Call.Args) != len(sf.Params) {
+				continue
+			}
+			if x.pf != nil && x.pf.member[sf] {
+				continue
+			}
+			// which argument carries the role's values and which the node: the
+			// derivation is an over-approximation at container granularity, so
+			// an argument derived from only one of the two is preferred
+			nodeIdx, roleIdx := -1, -1
+			var inR, inN []bool
+			for _, a := range c.Call.Args {
+				inR = append(inR, x.d.HasRoot(a, rp))
+				inN = append(inN, x.d.HasRoot(a, node))
+			}
+			for pass := 0; pass < 2 && roleIdx < 0; pass++ {
+				for i := range c.Call.Args {
+					if inR[i] && (pass == 1 || !inN[i]) && roleIdx < 0 {
+						roleIdx = i
+					}
+				}
+			}
+			for pass := 0; pass < 2 && nodeIdx < 0; pass++ {
+				for i := range c.Call.Args {
+					if i != roleIdx && inN[i] && (pass == 1 || !inR[i]) && nodeIdx < 0 {
+						nodeIdx = i
+					}
+				}
+			}
+			if os.Getenv("JDLINT_DEBUG") != "" {
+				fmt.Fprintf(os.Stderr, "helperAccepts %s -> %s node=%d role=%d\n", fnName(x.fn), fnName(sf), nodeIdx, roleIdx)
+			}
+			if nodeIdx < 0 || roleIdx < 0 {
+				continue
+			}
+			if !x.helperVerified(sf, nodeIdx, roleIdx, context, depth) {
+				continue
+			}
+			// the error value and the edge on which it is nil
+			var errV ssa.Value = c
+			if sf.Signature.Results().Len() > 1 {
+				errV = nil
+				for _, ref := range *c.Referrers() {
+					if ex, ok := ref.(*ssa.Extract); ok && ex.Index == sf.Signature.Results().Len()-1 {
+						errV = ex
+					}
+				}
+			}
+			if errV == nil {
+				continue
+			}
+			for _, bb := range x.fn.Blocks {
+				cond, tE, fE, ok := branchEdges(bb)
+				if !ok {
+					continue
+				}
+				bo, ok := cond.(*ssa.BinOp)
+				if !ok || !(bo.X == errV && isNilConst(bo.Y) || bo.Y == errV && isNilConst(bo.X)) {
+					continue
+				}
+				switch bo.Op {
+				case token.NEQ:
+					out[fE] = true
+				case token.EQL:
+					out[tE] = true
+				}
+			}
+		}
+	}
+	return out
+}
+
+func (x *expectCtx) helperVerified(sf *ssa.Function, nodeIdx, roleIdx int, context bool, depth int) bool {
+	if depth > 2 {
+		return false
+	}
+	hx := &expectCtx{w: x.w, pf: x.pf, fn: sf, d: NewDeriv(x.w, sf), ea: x.ea, lps: loopsOf(sf), node: sf.Params[nodeIdx], infeasible: EdgeSet{}}
+	rp := sf.Params[roleIdx]
+	vs := hx.verifications(rp)
+	acc := EdgeSet{}
+	if context {
+		acc = hx.boundaryAccepts(rp)
+	}
+	for _, v := range vs {
+		if !x.ea.errorOnly(v.failE.To()) {
+			return false
+		}
+		acc[v.trueE] = true
+	}
+	for e := range hx.helperAccepts(rp, context, depth+1) {
+		acc[e] = true
+	}
+	if len(acc) == 0 {
+		return false
+	}
+	loops := hx.roleLoops(rp)
+	for _, ret := range returnsOf(sf) {
+		if x.ea.isErrorReturn(ret) {
+			continue
+		}
+		if cutsOff(sf, acc, ret.Block()) {
+			continue
+		}
+		ok := false
+		for _, l := range loops {
+			hcut := EdgeSet{}
+			for _, p := range l.Header.Preds {
+				for j, s := range p.Succs {
+					if s == l.Header {
+						hcut[Edge{p, j}] = true
+					}
+				}
+			}
+			if !cutsOff(sf, hcut, ret.Block()) {
+				continue
+			}
+			if ok2, _ := hx.loopVerified(l, acc); ok2 {
+				ok = true
+			}
+		}
+		if !ok {
+			return false
+		}
+	}
+	return true
 }
 
 func ruleExpect(w *World, r *Report, pf *patchFamily, scope func(*ssa.Function) bool) {
@@ -397,6 +553,7 @@ func ruleExpect(w *World, r *Report, pf *patchFamily, scope func(*ssa.Function) 
 				"the branch taken when the removed value does NOT match can reach a success return (inverted or dropped check)")
 		}
 		oldLoops := x.roleLoops(oldP)
+		oldHelpers := x.helperAccepts(oldP, false, 0)
 		for ci, c := range commits {
 			key := fmt.Sprintf("%s:commit#%d[oldValues]", fnName(fn), ci+1)
 			cpos := w.Pos(c.Pos())
@@ -411,7 +568,10 @@ func ruleExpect(w *World, r *Report, pf *patchFamily, scope func(*ssa.Function) 
 			for _, v := range vs {
 				cut[v.trueE] = true
 			}
-			if len(vs) > 0 && cutsOff(fn, cut, c.Block()) {
+			for e := range oldHelpers {
+				cut[e] = true
+			}
+			if len(vs)+len(oldHelpers) > 0 && cutsOff(fn, cut, c.Block()) {
 				r.Ok(rule, key, cpos, "every path to this commit passes a successful Equals between the node and the removed value")
 				continue
 			}
@@ -437,6 +597,9 @@ func ruleExpect(w *World, r *Report, pf *patchFamily, scope func(*ssa.Function) 
 				acc := EdgeSet{}
 				for _, v := range vs {
 					acc[v.trueE] = true
+				}
+				for e := range oldHelpers {
+					acc[e] = true
 				}
 				if ok, w2 := x.loopVerified(l, acc); ok {
 					okLoop = true
@@ -468,6 +631,7 @@ func ruleExpect(w *World, r *Report, pf *patchFamily, scope func(*ssa.Function) 
 			loops := x.roleLoops(rp)
 			acc := x.boundaryAccepts(rp)
 			rvs := x.verifications(rp)
+			ctxHelpers := x.helperAccepts(rp, true, 0)
 			for i, v := range rvs {
 				acc[v.trueE] = true
 				key := fmt.Sprintf("%s:%s-check#%d:fail-side", fnName(fn), role, i+1)
@@ -489,6 +653,18 @@ func ruleExpect(w *World, r *Report, pf *patchFamily, scope func(*ssa.Function) 
 				}
 				ok := false
 				why := fmt.Sprintf("this success return of an indexed hunk is reachable without passing the loop that checks the %s context", role)
+				if len(ctxHelpers) > 0 {
+					hc := EdgeSet{}
+					for e := range ex {
+						hc[e] = true
+					}
+					for e := range ctxHelpers {
+						hc[e] = true
+					}
+					if cutsOff(fn, hc, c.Block()) {
+						ok = true
+					}
+				}
 				for _, l := range loops {
 					hcut := EdgeSet{}
 					for e := range ex {
@@ -535,7 +711,44 @@ func (x *expectCtx) multisetSchema(c *ssa.Return, oldP *ssa.Parameter) (bool, st
 		if rg == nil || !l.Header.Dominates(c.Block()) {
 			continue
 		}
-		// error-only exit on value < 0
+		// error-only exit on a negative count: the count is the map value
+		// of the iteration, or a field of it
+		isCount := func(v ssa.Value) bool {
+			for {
+				switch y := v.(type) {
+				case *ssa.Field:
+					v = y.X
+					continue
+				case *ssa.UnOp:
+					// a field of a local copy of the value
+					if y.Op == token.MUL {
+						if fa, ok := y.X.(*ssa.FieldAddr); ok {
+							if a, ok := fa.X.(*ssa.Alloc); ok {
+								var only ssa.Value
+								n := 0
+								for _, ref := range *a.Referrers() {
+									if st, ok := ref.(*ssa.Store); ok && st.Addr == ssa.Value(a) {
+										only = st.Val
+										n++
+									}
+								}
+								if n == 1 {
+									v = only
+									continue
+								}
+							}
+						}
+					}
+				}
+				break
+			}
+			ex, ok := v.(*ssa.Extract)
+			if !ok {
+				return false
+			}
+			nx, ok := ex.Tuple.(*ssa.Next)
+			return ok && nx.Iter == ssa.Value(rg)
+		}
 		under := false
 		for b := range l.Blocks {
 			cond, tE, _, ok := branchEdges(b)
@@ -543,39 +756,88 @@ func (x *expectCtx) multisetSchema(c *ssa.Return, oldP *ssa.Parameter) (bool, st
 				continue
 			}
 			bo, ok := cond.(*ssa.BinOp)
-			if !ok || bo.Op != token.LSS {
+			if !ok {
 				continue
 			}
-			if k, ok := constInt(bo.Y); ok && k == 0 && x.ea.errorOnly(tE.To()) {
-				if ex, ok := bo.X.(*ssa.Extract); ok {
-					if nx, ok := ex.Tuple.(*ssa.Next); ok && nx.Iter == ssa.Value(rg) {
-						under = true
-					}
-				}
+			X, Y, op := bo.X, bo.Y, bo.Op
+			if _, isK := constInt(X); isK {
+				X, Y, op = Y, X, swapOp(op)
+			}
+			k, isK := constInt(Y)
+			if !isK || !((op == token.LSS && k == 0) || (op == token.LEQ && k == -1)) {
+				continue
+			}
+			if x.ea.errorOnly(tE.To()) && isCount(X) {
+				under = true
 			}
 		}
 		if !under {
 			continue
 		}
-		// the map is decremented in a loop over oldValues
+		// the map is decremented in a loop over oldValues: directly, or by a
+		// helper that receives the map, the removed value and a negative step
 		dec := false
-		for _, ol := range x.roleLoops(oldP) {
-			_ = ol
-		}
 		allInstrs(x.fn, func(in ssa.Instruction) {
-			mu, ok := in.(*ssa.MapUpdate)
-			if !ok || mu.Map != rg.X {
-				return
-			}
-			bo, ok := mu.Value.(*ssa.BinOp)
-			if !ok || bo.Op != token.SUB {
-				return
-			}
-			if k, ok := constInt(bo.Y); !ok || k != 1 {
-				return
-			}
-			if x.d.HasRoot(mu.Key, oldP) {
-				dec = true
+			switch mu := in.(type) {
+			case *ssa.MapUpdate:
+				if mu.Map != rg.X {
+					return
+				}
+				bo, ok := mu.Value.(*ssa.BinOp)
+				if !ok || bo.Op != token.SUB {
+					return
+				}
+				if k, ok := constInt(bo.Y); !ok || k != 1 {
+					return
+				}
+				if x.d.HasRoot(mu.Key, oldP) {
+					dec = true
+				}
+			case *ssa.Call:
+				sf := staticCallee(mu)
+				if sf == nil || sf.Blocks == nil || len(mu.Call.Args) != len(sf.Params) {
+					return
+				}
+				inOldLoop := false
+				for _, ol := range x.roleLoops(oldP) {
+					if ol.Blocks[mu.Block()] {
+						inOldLoop = true
+					}
+				}
+				if !inOldLoop {
+					return
+				}
+				var pm, pd, pe *ssa.Parameter
+				for i, a := range mu.Call.Args {
+					switch {
+					case a == rg.X:
+						pm = sf.Params[i]
+					case isIntType(a.Type()):
+						if k, ok := constInt(a); ok && k == -1 {
+							pd = sf.Params[i]
+						}
+					case x.d.HasRoot(a, oldP) && pe == nil:
+						pe = sf.Params[i]
+					}
+				}
+				if pm == nil || pd == nil || pe == nil {
+					return
+				}
+				hd := NewDeriv(x.w, sf)
+				allInstrs(sf, func(in2 ssa.Instruction) {
+					if u, ok := in2.(*ssa.MapUpdate); ok && u.Map == ssa.Value(pm) && hd.HasRoot(u.Value, pd) && hd.HasRoot(u.Key, pe) {
+						// the step is added to the stored count
+						added := false
+						allInstrs(sf, func(in3 ssa.Instruction) {
+							if bo, ok := in3.(*ssa.BinOp); ok && bo.Op == token.ADD && (bo.X == ssa.Value(pd) || bo.Y == ssa.Value(pd)) {
+								added = true
+							}
+						})
+						if added {
+							dec = true
+						}
+					}
+				})
 			}
 		})
 		if dec {
@@ -722,7 +984,7 @@ func ruleDeleteVoid(w *World, r *Report, pf *patchFamily) {
 				continue
 			}
 			if c, ok := cond.(*ssa.Call); ok {
-				if sf := staticCallee(c); sf != nil && sf.Name() == "isVoid" {
+				if sf := staticCallee(c); sf != nil && w.helperIs(sf, "isVoid") {
 					cut[tE] = true
 				}
 			}
@@ -730,5 +992,163 @@ func ruleDeleteVoid(w *World, r *Report, pf *patchFamily) {
 		r.Check(len(cut) > 0 && cutsOff(fn, cut, del.Block()), rule, fnName(fn)+":delete-only-for-void", w.Pos(del.Pos()),
 			"a member is deleted only on the edge where the patched value is void",
 			"a member can be deleted although the patched value is not void (e.g. for null): a hunk that writes null removes the key instead, and merge patches rendered by patching the empty document lose their deletions")
+	}
+}
+
+// ruleKeyBind — the digest by which jsonSet.patch selects the keyed member a
+// nested hunk is applied to must say which value belongs to which key.
+// For every comparison of two digests in the set patch whose operands are
+// results of functions of the package: in each such function, on the paths
+// that are feasible for the options it is called with (the value-only
+// identity behind getOption[setKeysOption] is infeasible when the options
+// cannot hold a setKeysOption), every member value looked up by key that
+// reaches the digest must be accompanied by its key: the key string itself
+// is part of the digested data, not only the index of the lookup.
+func ruleKeyBind(w *World, r *Report, pf *patchFamily) {
+	const rule = "R-KEYBIND"
+	var fn *ssa.Function
+	for _, m := range pf.methods {
+		if m.Signature.Recv() != nil && typeName(m.Signature.Recv().Type()) == "jsonSet" {
+			fn = m
+		}
+	}
+	if fn == nil {
+		infra("R-KEYBIND: (jsonSet).patch not found")
+	}
+	r.Fn(fnName(fn))
+	d := NewDeriv(w, fn)
+	optT := optionSliceType(pf.pkg, map[string]string{"v2": "Option", "lib": "Metadata"}[pf.tag])
+	isDigest := func(t types.Type) bool {
+		a, ok := t.Underlying().(*types.Array)
+		return ok && a.Len() == 8 && isByteType(a.Elem())
+	}
+	isSetKeys := func(t types.Type) bool {
+		n := namedOf(t)
+		return n != nil && strings.EqualFold(n.Obj().Name(), "setKeysOption")
+	}
+	// may the option list hold a setKeysOption?
+	mayKeys := func(v ssa.Value) bool {
+		for x := range d.Visited(v) {
+			switch y := x.(type) {
+			case *ssa.MakeInterface:
+				if isSetKeys(y.X.Type()) {
+					return true
+				}
+			case *ssa.Parameter:
+				if types.Identical(y.Type(), optT) {
+					return true
+				}
+			case *ssa.Extract:
+				c, ok := y.Tuple.(*ssa.Call)
+				if !ok || !types.Identical(y.Type(), optT) {
+					continue
+				}
+				sf := staticCallee(c)
+				if sf == nil || sf.Blocks == nil {
+					return true
+				}
+				for _, ret := range returnsOf(sf) {
+					if y.Index >= len(ret.Results) {
+						continue
+					}
+					for _, o := range optionLiteral(ret.Results[y.Index]) {
+						if strings.EqualFold(o, "setKeysOption") {
+							return true
+						}
+					}
+					if _, isC := strip(ret.Results[y.Index]).(*ssa.Const); !isC {
+						if _, isSl := strip(ret.Results[y.Index]).(*ssa.Slice); !isSl {
+							return true // not a literal: unknown
+						}
+					}
+				}
+			}
+		}
+		return false
+	}
+	binds := func(g *ssa.Function, keysFeasible bool) (bool, string) {
+		cut := EdgeSet{}
+		if !keysFeasible {
+			for _, b := range g.Blocks {
+				cond, tE, _, ok := branchEdges(b)
+				if !ok {
+					continue
+				}
+				var call *ssa.Call
+				switch x := cond.(type) {
+				case *ssa.Extract:
+					call, _ = x.Tuple.(*ssa.Call)
+				case *ssa.Call:
+					call = x
+				}
+				if call == nil {
+					continue
+				}
+				if sf := staticCallee(call); sf != nil && len(sf.TypeArgs()) == 1 && isSetKeys(sf.TypeArgs()[0]) {
+					cut[tE] = true
+				}
+			}
+		}
+		reach := reachFrom(g.Blocks[0], cut)
+		dg := NewDeriv(w, g)
+		for _, ret := range returnsOf(g) {
+			if !reach[ret.Block()] {
+				continue
+			}
+			vis := dg.Visited(ret.Results[0])
+			for b := range reach {
+				for _, in := range b.Instrs {
+					lk, ok := in.(*ssa.Lookup)
+					if !ok || !vis[lk] {
+						continue
+					}
+					if _, isMap := lk.X.Type().Underlying().(*types.Map); !isMap || strip(lk.X) != ssa.Value(g.Params[0]) {
+						continue
+					}
+					if _, isConst := lk.Index.(*ssa.Const); isConst {
+						continue
+					}
+					if !vis[lk.Index] {
+						return false, fmt.Sprintf("%s digests the value found under a key (%s) without the key itself", fnName(g), w.Pos(lk.Pos()))
+					}
+				}
+			}
+		}
+		return true, ""
+	}
+	n := 0
+	allInstrs(fn, func(in ssa.Instruction) {
+		bo, ok := in.(*ssa.BinOp)
+		if !ok || (bo.Op != token.EQL && bo.Op != token.NEQ) || !isDigest(bo.X.Type()) {
+			return
+		}
+		for _, side := range []ssa.Value{bo.X, bo.Y} {
+			c, ok := strip(side).(*ssa.Call)
+			if !ok {
+				continue
+			}
+			g := staticCallee(c)
+			if g == nil || g.Blocks == nil || fnPkg(g) != pf.pkg.Pkg || g.Signature.Recv() == nil {
+				continue
+			}
+			if _, isMap := g.Params[0].Type().Underlying().(*types.Map); !isMap {
+				continue
+			}
+			// the option argument
+			feasible := true
+			for i, p := range g.Params {
+				if types.Identical(p.Type(), optT) && i < len(c.Call.Args) {
+					feasible = mayKeys(c.Call.Args[i])
+				}
+			}
+			n++
+			ok2, why := binds(g, feasible)
+			r.Check(ok2, rule, fmt.Sprintf("%s→%s#%d", fnName(fn), g.Name(), n), w.Pos(c.Pos()),
+				"the digest that selects the keyed member binds every key to its value",
+				"the digest that selects the keyed member does not say which value belongs to which key: "+why+"; members whose key values are a permutation of the addressed ones are taken for it")
+		}
+	})
+	if n < 2 {
+		r.Bad(rule, fnName(fn)+":instance-floor", w.Pos(fn.Pos()), fmt.Sprintf("only %d member-selection digests found in the set patch", n))
 	}
 }
